@@ -285,14 +285,23 @@ impl TryFrom<Vec<u8>> for Instance {
     fn try_from(value: Vec<u8>) -> Result<Self, Self::Error> {
         let mut buf = Bytes::copy_from_slice(&value);
 
+        if buf.remaining() < 16 + 1 + 3 + 2 {
+            return Err(());
+        }
         let id = uuid::Uuid::from_slice(&buf.copy_to_bytes(16)).map_err(|_| ())?;
         let ty = MachineType::try_from(buf.get_u8()).map_err(|_| ())?;
         let version = (buf.get_u8(), buf.get_u8(), buf.get_u8());
 
         let model_len = buf.get_u16() as usize;
+        if buf.remaining() < model_len + 2 {
+            return Err(());
+        }
         let model = buf.copy_to_bytes(model_len);
 
         let serial_len = buf.get_u16() as usize;
+        if buf.remaining() < serial_len {
+            return Err(());
+        }
         let serial_number = buf.copy_to_bytes(serial_len);
 
         Ok(Instance {
